@@ -89,6 +89,9 @@ func runC01(c *ev.Ctx) {
 	if c.Thorough() {
 		large = append(large, lg{40000000, 2}, lg{40000000, 3}, lg{40000000, 7}, lg{100000000, 10}, lg{100000000, 12}, lg{100000000, 64})
 	}
+	if c.Lite() {
+		large = nil
+	}
 	for i, l := range large {
 		fam := "uniform"
 		if i >= 4 && i%2 == 0 {
@@ -104,6 +107,9 @@ func runC01(c *ev.Ctx) {
 	for _, n := range edges {
 		runSeqWorks(c, []seqWork{{Seq: gen.Seq{Fam: "slight", N: n, Seed: gen.Mix(seed, 9, uint64(n))}, Specs: []Spec{{T: "blockAuto"}}}})
 		c.Count("auto_block_edge_cases", 1)
+	}
+	if c.Lite() {
+		big = nil
 	}
 	for _, n := range big {
 		// one at a time: 100 MB of bools + 100 MB reference bits each
@@ -571,6 +577,9 @@ func runC04(c *ev.Ctx) {
 	if c.Thorough() {
 		M = 18
 	}
+	if c.Lite() {
+		M = 12
+	}
 	for m := 2; m <= M; m++ {
 		total := 1 << uint(m)
 		chunk := 1024
@@ -623,7 +632,7 @@ func runC05(c *ev.Ctx) {
 	// validate the reference FFT itself by direct summation before trusting it
 	validateOracleFFT(c, seed)
 	runSeqWorks(c, works)
-	if c.Thorough() {
+	if c.Thorough() && !c.Lite() {
 		// the library's documented maximum: 10^8 bits -> 2^27 points (about 6 GB in the library, 5 GB in
 		// the reference); one case, run alone
 		runSeqWorks(c, []seqWork{{Seq: gen.Seq{Fam: "uniform", N: 100000000, Seed: gen.Mix(seed, 4)}, Specs: dft(100000000)}})
